@@ -76,3 +76,41 @@ package utils
 //@   props C12
 //@   ensures nil_in_nil_out: v == nil ==> result == nil
 //@   ensures non_nil_for_every_kind: v != nil && kind(v.Value) != 0 ==> result != nil
+
+// ---------------------------------------------------------------------------
+// C04: range admission
+
+//@ pred urngesOK(r) = r != nil && forall(i, 0, len(r.rnges), r.rnges[i] != nil)
+//@ pred srngesOK(r) = r != nil && forall(i, 0, len(r.rnges), r.rnges[i] != nil)
+
+//@ func (*URnges).IsWithinAnyRange
+//@   props C04
+//@   requires urngesOK(r)
+//@   modifies nothing
+//@   ensures spec: result == (len(r.rnges) == 0 || exists(i, 0, len(r.rnges), r.rnges[i].min <= val && val <= r.rnges[i].max))
+//@   loop 0 invariant forall(j, 0, $n, !(r.rnges[j].min <= val && val <= r.rnges[j].max))
+
+//@ func (*SRnges).IsWithinAnyRange
+//@   props C04
+//@   requires srngesOK(r)
+//@   modifies nothing
+//@   ensures spec: result == (len(r.rnges) == 0 || exists(i, 0, len(r.rnges), r.rnges[i].min <= val && val <= r.rnges[i].max))
+//@   loop 0 invariant forall(j, 0, $n, !(r.rnges[j].min <= val && val <= r.rnges[j].max))
+
+//@ func (*URnges).AddRange
+//@   props C04
+//@   requires urngesOK(r)
+//@   modifies r.rnges, allelems(*URng)
+//@   ensures appended: len(r.rnges) == old(len(r.rnges)) + 1 && r.rnges[old(len(r.rnges))] != nil &&
+//@            r.rnges[old(len(r.rnges))].min == min && r.rnges[old(len(r.rnges))].max == max
+//@   ensures keeps_earlier: forall(i, 0, old(len(r.rnges)), r.rnges[i] == old(r.rnges[i]) && r.rnges[i].min == old(r.rnges[i].min) && r.rnges[i].max == old(r.rnges[i].max))
+//@   ensures still_ok: urngesOK(r)
+
+//@ func (*SRnges).AddRange
+//@   props C04
+//@   requires srngesOK(r)
+//@   modifies r.rnges, allelems(*SRng)
+//@   ensures appended: len(r.rnges) == old(len(r.rnges)) + 1 && r.rnges[old(len(r.rnges))] != nil &&
+//@            r.rnges[old(len(r.rnges))].min == min && r.rnges[old(len(r.rnges))].max == max
+//@   ensures keeps_earlier: forall(i, 0, old(len(r.rnges)), r.rnges[i] == old(r.rnges[i]) && r.rnges[i].min == old(r.rnges[i].min) && r.rnges[i].max == old(r.rnges[i].max))
+//@   ensures still_ok: srngesOK(r)
